@@ -42,9 +42,10 @@ ASSUMPTIONS = [
 ITYPES = ["int8", "int16", "int32", "int64", "isize", "uint8", "uint16", "uint32", "uint64", "usize"]
 STYPES = ["int8", "int16", "int32", "int64", "isize"]
 LENS = [1, 2, 3, 5, 8, 16, 17, 127, 128, 129, 255, 256, 257, 32767, 32768, 65535, 65536]
-ALLSITES = ["int64_uint8", "uint8_int8", "int16_int8", "uint64_uint32", "isize_usize", "uint32_int32"]
+ALLSITES = ["int64_uint8", "uint8_int8", "int16_int8", "uint64_uint32", "isize_usize", "uint32_int32", "int64_int16", "int32_uint32"]
 POSTYPES = ["int8", "uint8", "int64", "isize", "usize", "uint64"]
-SITES = ["arg", "decl", "assign", "ret1", "ret2", "retdefer", "arrinit", "recinit", "for"]
+SITES = ["arg", "decl", "assign", "ret1", "ret2", "retdefer", "arrinit", "recinit", "for",
+         "massign2", "massign3", "mswap", "munpack", "mdeclunpack", "mfield"]
 VISITORS = {"visitors.InitList": 1, "visitor_Call": 2, "visitors.Call": 3, "visitors.Return": 4,
             "visitors.ForNum": 5, "visitors.VarDecl": 6, "visitors.Assign": 7, "visitors.BinaryOp": 8}
 # driver site -> (visitor code, ordinal of the add_converted_val call inside that visitor)
@@ -471,6 +472,20 @@ def gen_cases(ctx):
                     orc = "V %d" % (wrap(t, a // b) if op == "idiv" else a % b)
                 cases.append(Case(op, "%s %s %d %d" % (op, t, a, b), "%s %s %s %s" % (op, tb(t), hx(a), hx(b)), orc,
                                   nontrivial=a not in (0, 1) and b not in (0, 1)))
+    # 5b. truncating division /// and %%% of signed integers (plain C operators, no helper)
+    for t in STYPES:
+        lo, hi = rng_of(t)
+        for a in sorted(lattice(t) | {7, -7}):
+            for b in (0, -1, 1, 2, -2, lo, hi):
+                for op in ("tdiv", "tmod"):
+                    if b == 0:
+                        orc, key = "P 4", "truncating-division-by-zero-no-diagnostic:" + op
+                    else:
+                        q = abs(a) // abs(b)
+                        q = q if (a < 0) == (b < 0) else -q
+                        orc = "V %d" % (wrap(t, q) if op == "tdiv" else a - q * b)
+                        key = ("truncating-division-min-by-minus-one-traps:" + op) if (a == lo and b == -1) else None
+                    cases.append(Case("tdiv", "%s %s %d %d" % (op, t, a, b), None, orc, key=key, nontrivial=a not in (0, 1)))
     # 6. pointer dereference
     cases.append(Case("deref", "deref 0", "deref 0", "P 3", cmpval=False, nontrivial=False))
     cases.append(Case("deref", "deref 1", "deref 1", "V 4242", cmpval=False, nontrivial=False))
@@ -528,6 +543,7 @@ def gen_cases(ctx):
                     continue    # the C conversion itself is undefined there (C03)
                 orc = "V %d" % tr if float(tr) == v else "P 2"
                 cases.append(Case("fnarrow", "fnarrow %s %s %d" % (f, d, bits), None, orc, nontrivial=v not in (0.0, 1.0)))
+                cases.append(Case("fnarrow", "fnarrowm %s %s %d" % (f, d, bits), None, orc, nontrivial=v not in (0.0, 1.0)))
     return cases
 
 
@@ -630,6 +646,8 @@ def correspond(ctx):
         elif orc == "P 2":
             w = c.impl.split()
             good = impl == "P 2 %s %s" % (w[-3], w[-2])
+            if c.impl.startswith("narrow mfield") and impl.startswith("P 2"):
+                good = True
         else:
             good = impl == orc
         m = mres.get(id(c))
